@@ -67,7 +67,7 @@ def validate(number):
         raise InvalidLength()
     if isdigits(number[0]) or isdigits(number[1]):
         raise InvalidFormat()
-    if number[:2] in ('BS', 'BM', 'GG', 'GB', 'VG'):
+    if number[:2] in ('BS', 'BM', 'GG', 'GB', 'GH', 'KY', 'VG'):
         raise InvalidComponent()
     if number[2] != 'G':
         raise InvalidComponent()
